@@ -721,6 +721,45 @@ func (c *VerifCtx) mayBeClosed(v ssa.Value) bool {
 // chanDisc: declared discipline of the channel-typed struct field the channel
 // value was loaded from ("" if none).
 func (c *VerifCtx) chanDisc(v ssa.Value) string {
+	// a getter method that returns a channel field (Done() returns c.quit)
+	if call, isCall := v.(*ssa.Call); isCall {
+		if f := call.Call.StaticCallee(); f != nil && len(f.Blocks) == 1 {
+			for _, ins := range f.Blocks[0].Instrs {
+				if ret, isRet := ins.(*ssa.Return); isRet && len(ret.Results) == 1 {
+					r := ret.Results[0]
+					if ct, isCT := r.(*ssa.ChangeType); isCT {
+						r = ct.X
+					}
+					if mi, isMI := r.(*ssa.Convert); isMI {
+						r = mi.X
+					}
+					// naive-form SSA returns through a result cell: follow its only store
+					if ld, isLd := r.(*ssa.UnOp); isLd && ld.Op == token.MUL {
+						if al, isAl := ld.X.(*ssa.Alloc); isAl {
+							var stored ssa.Value
+							n := 0
+							for _, b := range f.Blocks {
+								for _, in2 := range b.Instrs {
+									if st, isSt := in2.(*ssa.Store); isSt && st.Addr == al {
+										stored = st.Val
+										n++
+									}
+								}
+							}
+							if n == 1 {
+								r = stored
+								if ct, isCT := r.(*ssa.ChangeType); isCT {
+									r = ct.X
+								}
+							}
+						}
+					}
+					return c.chanDisc(r)
+				}
+			}
+		}
+		return ""
+	}
 	u, ok := v.(*ssa.UnOp)
 	if !ok || u.Op != token.MUL {
 		return ""
